@@ -113,6 +113,9 @@ def cases(tier, seed):
     for fn in S.FUNCTIONALS:
         for tag, u in unknown_names(fn):
             out.append({"part": "unknown", "functional": fn, "variant": tag, "spelled": u})
+            if fn == "solve":
+                # an exactly zero right-hand side (answered by a shortcut): the name is still checked
+                out.append({"part": "unknown", "functional": fn, "variant": tag, "spelled": u, "E": "zeroB"})
     return out
 
 
@@ -140,6 +143,8 @@ def _scen(cfg):
         kw["withE"] = cfg.get("E", "none") == "E"
         if cfg.get("E") == "tinyB":
             kw["bscale"] = 1e-9
+        if cfg.get("E") == "zeroB":
+            kw["bscale"] = 0.0
         if cfg.get("E") == "EM":
             kw["withM"] = True
     return S.make(cfg["functional"], cfg.get("kind"), cfg.get("vseed", 0), **kw)
@@ -438,6 +443,8 @@ def _name_exec(cfg, spelled):
     fn = cfg["functional"]
     base = cfg.get("name")
     c = {"functional": fn, "kind": None, "vseed": 0}
+    if cfg.get("E"):
+        c["E"] = cfg["E"]
     sc = _scen(c)
     fwd = S.opts_of(fn, base) if base else {}
     if fn == "mcquad" and base:
